@@ -79,8 +79,12 @@ def reset_globals():
     else:
         VP._current_registry = None
     TimePeriodConfig._representation = "vtl"
-    VirtualCounter.dataset_count = 0
-    VirtualCounter.component_count = 0
+    if hasattr(VirtualCounter, "_local"):           # per-thread counters since the threading.local fix
+        VirtualCounter._local.dataset_count = 0
+        VirtualCounter._local.component_count = 0
+    else:
+        VirtualCounter.dataset_count = 0
+        VirtualCounter.component_count = 0
 
 
 # ------------------------------------------------------------------------------------------------ the scheduler
@@ -134,7 +138,8 @@ class Forced:
                 ev["value"] = TimePeriodConfig._representation
             elif t in ("TVcDs", "TVcDc"):
                 from vtlengine.Utils.__Virtual_Assets import VirtualCounter
-                ev["value"] = VirtualCounter.dataset_count if t == "TVcDs" else VirtualCounter.component_count
+                src = getattr(VirtualCounter, "_local", VirtualCounter)      # this thread's counters
+                ev["value"] = getattr(src, "dataset_count" if t == "TVcDs" else "component_count", 0)
         except Exception as e:  # observation must never disturb the engine
             ev["obs_error"] = f"{type(e).__name__}: {e}"
 
@@ -292,7 +297,8 @@ def model_obs_batch(jobs: List[Tuple[List[List[str]], List[List[int]]]], tag: st
     """jobs: (traces of the calls, step-level schedules).  For each job: element 0 = each call's solo observations, then, per
     schedule, each thread's observations under it — chronological (global, value) pairs for the registry cell of the thread
     (reported as global 1; values are tokens = thread + 1, 0 = initial) and the two process-wide counters.  One Coq run for all."""
-    flt = "(fun l => rev (map (fun o => (if Nat.leb 100 (fst o) then GRegistry else fst o, snd o)) (filter (fun o => mem (fst o) [GVcDs; GVcDc] || (Nat.leb 100 (fst o) && Nat.eqb (Nat.modulo (fst o) 10) GRegistry)) l)))"
+    flt = ("(fun l => rev (map (fun o => (Nat.modulo (fst o) 10, snd o)) (filter (fun o => Nat.leb 100 (fst o) && "
+           "mem (Nat.modulo (fst o) 10) [GRegistry; GVcDs; GVcDc]) l)))")
     exprs, sizes = [], []
     for tagss, scheds in jobs:
         n = len(tagss)
@@ -705,6 +711,8 @@ def run(ctx):
             ctx.oblige("tie: every recorded global-access trace matches the model's skeleton of its API call (is_run_trace / is_semantic_trace / is_parse_trace) and reads its registry / output-dataset cell only after its own write (cells_wf)",
                        not badshape, "; ".join(badshape[:3]))
             ctx.cov["traces_checked_against_skeleton"] = len(shape_items)
+            tpget = [n for (k, t), n in zip(shape_items, shape_names) if "TTpGet" in t]
+            ctx.oblige("tie: no API call reads TimePeriodConfig (the only global still process-wide)", not tpget, "; ".join(tpget[:3]))
             for n, (k, t) in list(zip(shape_names, shape_items))[:3]:
                 ctx.sample({"call": n, "kind": k, "trace": t})
         except Exception as e:
